@@ -4,7 +4,7 @@ from __future__ import annotations
 
 import copy
 
-from bumble import att, hfp
+from bumble import att, hfp, rfcomm, smp
 
 from lib import c17_rigs as rigs
 from lib import c17_run as R
@@ -18,7 +18,7 @@ def _wrap_att(rig_self, fn):
 
 
 class WedgedAtt(rigs.AttRig):
-    """after the first PDU whose handling raises, the ATT bearer ignores everything (a wedged reader)"""
+    """after the first malformed (empty) PDU the ATT bearer ignores everything (a wedged reader)"""
 
     async def open_channel(self):
         dead = []
@@ -26,11 +26,9 @@ class WedgedAtt(rigs.AttRig):
         def handler(orig, handle, pdu):
             if dead:
                 return
-            try:
-                orig(handle, pdu)
-            except Exception:
+            if not pdu:
                 dead.append(1)
-                raise
+            orig(handle, pdu)
 
         _wrap_att(self, handler)
 
@@ -83,15 +81,13 @@ class RecursiveAtt(rigs.AttRig):
 
 
 class DroppingAtt(rigs.AttRig):
-    """a PDU whose handling raises makes the device forget the connection"""
+    """a malformed (empty) PDU makes the device forget the connection"""
 
     async def open_channel(self):
         def handler(orig, handle, pdu):
-            try:
-                orig(handle, pdu)
-            except Exception:
+            if not pdu:
                 self.victim.connections.pop(self.vhandle, None)
-                raise
+            orig(handle, pdu)
 
         _wrap_att(self, handler)
 
@@ -121,6 +117,53 @@ class OldReaderAgRig(rigs.HfpAgRig):
         self.ag = ParseBeforeConsumeAg(dlc, rigs.ag_configuration())
 
 
+class DeadSession(smp.Session):
+    """a Security Manager session that stops handling commands once one of its handlers has raised (it answered Pairing
+    Failed: the wire looks right), and stays on record for the connection: the shape of a containment branch that leaves
+    the session unusable"""
+
+    def on_smp_command(self, command):
+        if getattr(self, "dead", False):
+            return
+        super().on_smp_command(command)
+
+    def send_command(self, command):
+        super().send_command(command)
+        if isinstance(command, smp.SMP_Pairing_Failed_Command) and command.reason == smp.ErrorCode.UNSPECIFIED_REASON:
+            self.dead = True
+
+
+class DeadSessionSmpRig(rigs.SmpRig):
+    def prepare_victim(self):
+        super().prepare_victim()
+        self.victim.smp_manager.session_proxy = DeadSession
+
+
+class SpinningDlc(rfcomm.DLC):
+    """a DLC whose transmit loop makes no progress when the negotiated frame size is 0 (tx_buffer[:0] sends nothing, no
+    credit is spent): a busy loop inside the handling of one frame"""
+
+    def process_tx(self):
+        while self.tx_buffer and self.tx_credits > 0 and self.mtu == 0:
+            self.send_frame(rfcomm.RFCOMM_Frame.uih(c_r=self.c_r, dlci=self.dlci, information=b""))
+        super().process_tx()
+
+
+class SpinningDlcRig(rigs.RfcommRig):
+    def prepare_victim(self):
+        super().prepare_victim()
+        rfcomm.DLC = SpinningDlc  # Multiplexer.on_mcc_pn builds its DLCs from the module attribute; restored by run()
+
+
+def _variant(channel, cls, label):
+    import random
+
+    labels = [l for l, _, _ in rigs.RIGS[channel](random.Random(0)).instances(cls)]
+    if label not in labels:
+        raise rigs.RigError(f"self-test: {channel}/{cls} has no instance {label}")
+    return labels.index(label)
+
+
 SHIMS = [
     # name, rig, channel, sequences, event at which the trace must be rejected
     ("wedged-reader", WedgedAtt, "att", [("empty",), ("empty", "valid")], "probe_ok"),
@@ -129,13 +172,31 @@ SHIMS = [
     ("swallowed-recursion", RecursiveAtt, "att", [("empty",)], "done"),
     ("connection-dropped", DroppingAtt, "att", [("empty",)], "alive"),
     ("ag-parse-before-consume", OldReaderAgRig, "hfp_ag", [("at_unknown",), ("at_paren",), ("at_nonutf8",)], "probe_ok"),
+    # the enumerated classes: one named instance each (sequence, variants)
+    ("smp-session-dead-after-contained-exception", DeadSessionSmpRig, "smp",
+     [(("out_of_phase",), lambda: [_variant("smp", "out_of_phase", "dhkey_check:zeros")]),
+      (("advance", "out_of_phase"), lambda: [0, _variant("smp", "out_of_phase", "dhkey_check:random")])], "probe_ok"),
+    ("rfcomm-frame-size-0-spins", SpinningDlcRig, "rfcomm",
+     [(("extreme",), lambda: [_variant("rfcomm", "extreme", "PN.max_frame_size=0")])], "done"),
 ]
+
+
+def _healthy(r):
+    # (a control run that itself fails its probe on the tree under test is rightly rejected)
+    return r["trace"][-1]["e"] == "probe_ok" and r["trace"][-1]["ok"]
 
 
 def run(ctx, rep, validate):
     results = {}
     for name, factory, channel, seqs, where in SHIMS:
-        res = [R.run_sequence(channel, s, R.seq_seed(ctx.seed, channel, s, 7), rig_factory=factory) for s in seqs]
+        real_dlc = rfcomm.DLC
+        try:
+            res = []
+            for s in seqs:
+                s, variants = (s[0], s[1]()) if s and isinstance(s[0], tuple) else (s, None)
+                res.append(R.run_sequence(channel, s, R.seq_seed(ctx.seed, channel, s, 7), rig_factory=factory, variants=variants))
+        finally:
+            rfcomm.DLC = real_dlc
         r2 = core.Report(rep.prop, rep.level)
         rejected = validate(ctx, r2, res, 4)
         hits = [r for r, v in rejected if 0 < v[1] <= len(r["trace"]) and r["trace"][v[1] - 1]["e"] == where]
@@ -163,6 +224,17 @@ def run(ctx, rep, validate):
     v = copy.deepcopy(good)
     v["trace"] = v["trace"][:-1]
     variants["probe-reply-missing"] = v
+    # a transaction of the peer left open: the reference request must not be made before it is abandoned
+    txn = R.run_sequence("att", ("advance",), R.seq_seed(ctx.seed, "att", ("advance",), 7), variants=[0])
+    if [e["e"] for e in txn["trace"]].count("abandon") != 1:
+        raise rigs.RigError(f"self-test: the trace of att/(advance) has no abandon event: {txn['trace']}")
+    variants["control-transaction"] = copy.deepcopy(txn)
+    v = copy.deepcopy(txn)
+    v["trace"] = [e for e in v["trace"] if e["e"] != "abandon"]
+    variants["probe-inside-open-transaction"] = v
+    v = copy.deepcopy(txn)
+    v["trace"][0]["txn"] = False
+    variants["advance-not-a-transaction-step"] = v
     names = list(variants)
     r2 = core.Report(rep.prop, rep.level)
     rejected = validate(ctx, r2, [variants[n] for n in names], 4)
@@ -170,8 +242,8 @@ def run(ctx, rep, validate):
     for n in names:
         rej = id(variants[n]) in rejected_ids
         results["trace:" + n] = "rejected" if rej else "accepted"
-        if n == "control" and rej:
-            rep.violation("selftest:control-trace-rejected", f"binding self-test: the unmodified trace of a healthy run was rejected: {good['trace']}")
-        if n != "control" and not rej:
+        if n.startswith("control") and rej and (n == "control" or _healthy(variants[n])):
+            rep.violation("selftest:control-trace-rejected", f"binding self-test: the unmodified trace of a healthy run was rejected: {variants[n]['trace']}")
+        if not n.startswith("control") and not rej:
             rep.violation(f"selftest:trace-{n}", f"binding self-test: corrupted trace ({n}) was accepted")
     print("selftest:", results)
